@@ -9,6 +9,7 @@ package log
 // a timer tick only flushes. Exits: cancellation or closed stream.
 //@ func (*logger).LogResults
 //@   sig l, ctx, results
+//@   locals bw: *bufio.Writer ;; err: error ;; timec: <-chan time.Time ;; result: github.com/v-byte-cpu/sx/pkg/scan.Result ;; ok: bool ;; err: error
 //@   props C14 C12 C16 C08 C03 C09 C10 C11 C13 C20
 //@   observe Write, (*logger).Error, (*bufio.Writer).Flush, time.After
 //@   loop 0 row cancel:    [ctxdone ; call Flush(_)] -> exit
@@ -30,6 +31,7 @@ package log
 // de-duplication: a result is forwarded iff its ID was not seen before; the ID is then remembered and nothing
 // is ever forgotten (=> every distinct host once, at its first sighting)
 //@ func (*UniqueLogger).uniqResults$1
+//@   locals member: struct{} ;; set: map[string]interface{} ;; result: github.com/v-byte-cpu/sx/pkg/scan.Result ;; ok: bool ;; id: string ;; exists: bool
 //@   props C14 C12 C08 C16 C03 C09 C10 C11 C13 C20
 //@   observe ID
 //@   loop 0 row cancel: [ctxdone ; close results] -> exit
@@ -70,6 +72,7 @@ package log
 //@   ensures l.flushInterval == interval
 //@ func NewLogger
 //@   sig w, label, opts
+//@   locals zapl: *go.uber.org/zap.Logger ;; err: error ;; l: *logger ;; o: LoggerOption
 //@   props C14 C08 C16 C03 C09 C10 C11 C12 C13 C20
 //@   observe LoggerOption, zap.NewProduction
 //@   entry row zaperr: [call zap.NewProduction(_) as (z, e)] when e != nil && ret0 == nil && ret1 == e -> exit
@@ -82,6 +85,7 @@ package log
 //@   ensures ret.logger == logger
 //@ func (*UniqueLogger).uniqResults
 //@   sig arg0, ctx, in
+//@   locals results: chan github.com/v-byte-cpu/sx/pkg/scan.Result
 //@   props C14 C12 C08 C16 C03 C09 C10 C11 C13 C20
 //@   entry row start: [go (*UniqueLogger).uniqResults$1{results: bind_u, in: bind_i, ctx: bind_c}] when ret == u && i == in && c == ctx -> exit
 
